@@ -21,6 +21,7 @@ mod fam_vtime;
 mod fam_nfs;
 mod fam_stream;
 mod util;
+mod unwind;
 
 use std::io::Write;
 use std::panic::{catch_unwind, AssertUnwindSafe};
